@@ -100,6 +100,14 @@ partial def listing (d : Dev) (io : IOGeom) (pre : String) (ks : List TNode) : L
     | .file _ c sz => [s!"{p}|f|{sz}|{natsStr c}|{digestBytes (fileContent d io c sz)}"]
     | .dir _ c ks' => s!"{p}|d|{natsStr c}" :: listing d io p ks'
 
+/-- a plain tree (what `reopen` builds) in listing form: names, nesting, sizes, content digests -/
+partial def specListing (pre : String) (t : Spec.Tree) : List String :=
+  t.flatMap fun e =>
+    let p := if pre == "" then nameStr e.1 else pre ++ "/" ++ nameStr e.1
+    match e.2 with
+    | .file c => [s!"{p}|f|{c.length}|{digestBytes c}"]
+    | .dir ch => s!"{p}|d" :: specListing p ch
+
 def listingStr (io : IOGeom) (s : DirSt) : String :=
   ";".intercalate (s!"|r|{natsStr s.chain}" :: listing s.d io "" s.kids)
 
@@ -219,7 +227,16 @@ def treeOp (args : List String) : String :=
         else true
       s!"\thyp={if geomOk then 1 else 0}{if inv0 then 1 else 0}{if fit0 then 1 else 0}{if withImg then (if img0 then "1" else "0") else ""}"
     else ""
-  let dimg := if withImg then s!"\tdimg={jd is}\tnsp={j ns}" else ""
+  -- `reopen=1`: the final volume re-opened from table + bytes alone (`reopen (image s)`: the tree as a
+  -- listing) and the raw check of every parsed entry's chain (`reopenCheck`)
+  let ro :=
+    if withImg && argNatD args "reopen" == 1 then
+      let D := image X g s
+      let t := reopen g fuel 8 s.m D (s.chain.headD 0)
+      let l := ";".intercalate (specListing "" t)
+      s!"\trtree={if verbose then l else toString (digestStr l)}\trchk={if reopenCheck g fuel 8 s.m D (s.chain.headD 0) then 1 else 0}"
+    else ""
+  let dimg := if withImg then s!"\tdimg={jd is}\tnsp={j ns}{ro}" else ""
   s!"res={j rs}\tused={j us}\tsteps={jd ds}\tfinal={listingStr io s}\ttable={nonzero s.m 2 (max + 1)}{dimg}{hyp}"
 
 /-- maximal runs of non-zero bytes of `d` in [0, total) as "off:len" -/
